@@ -506,6 +506,23 @@ pub fn run_c10(cx: &Cx) -> PropResult {
         if drive(tag_seed(derive_seed(cx.seed, cx.prop, shard as u64, 1), 1), &strat, per_shard / 2, acc, &|c: &HolderCase| to_json(&json!({"Holder": c})), &mut |c, a, r| check_holder(c, a, r)) {
             return;
         }
+        // graphs whose nodes are evolved records: small random ones, and chains / rings deep enough to nest hundreds
+        // of chunks
+        let strat = random_graph_strategy().prop_filter("small", |g| g.labels.len() <= 60).boxed();
+        if drive(tag_seed(derive_seed(cx.seed, cx.prop, shard as u64, 3), 3), &strat, per_shard / 8, acc, &|g: &Graph| to_json(&json!({"Evo": g})), &mut |g, a, r| check_evo_graph(g, a, r)) {
+            return;
+        }
+        if shard == 2 {
+            for n in [100usize, 127, 128, 129, 130, 200, 255, 256, 257, 400] {
+                for ring in [false, true] {
+                    let g = Graph { labels: (0..n as u32).collect(), edges: (0..n).map(|i| if i + 1 < n { vec![i + 1] } else if ring { vec![0] } else { vec![] }).collect() };
+                    if let Verdict::Fail(e) = check_evo_graph(&g, acc, true) {
+                        acc.violation(e, json!({"Evo": g}));
+                        return;
+                    }
+                }
+            }
+        }
         // one wide graph per width boundary of the object numbers: a root over w leaves, the leaves around object
         // number 128 / 16384 offered a second time (two- and three-byte references, each value near the boundary)
         if shard < 2 {
@@ -524,7 +541,7 @@ pub fn run_c10(cx: &Cx) -> PropResult {
     let mut r = PropResult::new(
         acc,
         "exploration",
-        "graphs: EXHAUSTIVELY every rooted digraph with 1-4 nodes whose nodes have ordered out-edge lists of length <= 2 over any targets (self-loops, diamonds, back-edges, parallel edges), all nodes reachable; randomly: 1-60 nodes (one case in eight: 100-400 nodes, so that object numbers cross the one-byte var-int boundary), out-degree <= 5; two wide graphs (a root over 300 / 16 400 leaves) whose leaves with the object numbers around 128 / 16 384 are offered twice. A harness codec written in safe code offers node addresses as identities (in one third / one half of the cases it additionally offers each node's embedded header, a distinct object of another type that lives at the node's own address, which must get its own number; in a quarter / half of the cases every node body also carries one of four DeduplicatedString tags, so that string ids and object numbers are assigned side by side in one stream; in a fifth / a third of the cases the nodes with a label divisible by 3 also offer one shared zero-sized sentinel object) (store_ref_or_object on the writer; state_mut().store_ref right after allocation and try_read_ref + downcast on the reader). Oracles: bytes == model (first offer: 00 + body, later offers: var-u32 of the 1-based first-encounter number, pre-order), objects written == reachable nodes, encoding terminates on cycles; decoded graph isomorphic by a simultaneous walk (labels, ordered edges; two edges reach the same original node iff the decoded targets are pointer-equal); a reference rewritten to objects+1, objects+1000 or u32::MAX decodes to Err(InvalidRefId), also right after a larger stream was decoded on the same thread, and so does a stream whose very first marker is rewritten to an object number. Non-trivial = a cycle or a node with in-degree >= 2. Tracked objects as record fields: a hand-expanded derive of struct Holder { a: u8, g1: Slot, s: String, g2: Slot, g3: Slot } (Slot offers a node of one shared graph) as a version-0 record and with g2 / g3 / s introduced by FieldAdded steps (so the slots live in different chunks), followed by one more byte in the stream; and through the REAL derive macro, struct DHolder { g3, a, g2, g1, s } with g2 and g3 added by evolution steps and declared before older fields; bytes must equal the model (markers and back-references inside the chunk of their field, objects numbered in field order) and decoding must restore the sharing between the fields.",
+        "graphs: EXHAUSTIVELY every rooted digraph with 1-4 nodes whose nodes have ordered out-edge lists of length <= 2 over any targets (self-loops, diamonds, back-edges, parallel edges), all nodes reachable; randomly: 1-60 nodes (one case in eight: 100-400 nodes, so that object numbers cross the one-byte var-int boundary), out-degree <= 5; two wide graphs (a root over 300 / 16 400 leaves) whose leaves with the object numbers around 128 / 16 384 are offered twice. A harness codec written in safe code offers node addresses as identities (in one third / one half of the cases it additionally offers each node's embedded header, a distinct object of another type that lives at the node's own address, which must get its own number; in a quarter / half of the cases every node body also carries one of four DeduplicatedString tags, so that string ids and object numbers are assigned side by side in one stream; in a fifth / a third of the cases the nodes with a label divisible by 3 also offer one shared zero-sized sentinel object) (store_ref_or_object on the writer; state_mut().store_ref right after allocation and try_read_ref + downcast on the reader). Oracles: bytes == model (first offer: 00 + body, later offers: var-u32 of the 1-based first-encounter number, pre-order), objects written == reachable nodes, encoding terminates on cycles; decoded graph isomorphic by a simultaneous walk (labels, ordered edges; two edges reach the same original node iff the decoded targets are pointer-equal); a reference rewritten to objects+1, objects+1000 or u32::MAX decodes to Err(InvalidRefId), also right after a larger stream was decoded on the same thread, and so does a stream whose very first marker is rewritten to an object number. Non-trivial = a cycle or a node with in-degree >= 2. Nodes that are evolved records themselves (label, then a version-1 record with the edge list in a chunk of its own): random graphs up to 60 nodes and chains / rings of 100-400 nodes, i.e. hundreds of chunks nested in each other. Tracked objects as record fields: a hand-expanded derive of struct Holder { a: u8, g1: Slot, s: String, g2: Slot, g3: Slot } (Slot offers a node of one shared graph) as a version-0 record and with g2 / g3 / s introduced by FieldAdded steps (so the slots live in different chunks), followed by one more byte in the stream; and through the REAL derive macro, struct DHolder { g3, a, g2, g1, s } with g2 and g3 added by evolution steps and declared before older fields; bytes must equal the model (markers and back-references inside the chunk of their field, objects numbered in field order) and decoding must restore the sharing between the fields.",
     );
     r.exhaustive = Some(true);
     r.extra = json!({"exhaustive_note": "exhaustive for graphs of <= 4 nodes with out-degree <= 2; larger graphs are sampled", "exhaustive_max_nodes": max_n});
@@ -533,12 +550,156 @@ pub fn run_c10(cx: &Cx) -> PropResult {
 }
 
 pub fn replay_c10(case: &Value) -> Verdict {
+    if let Some(g) = case.get("Evo") {
+        let g: Graph = serde_json::from_value(g.clone()).expect("replay case");
+        return check_evo_graph(&g, &mut Acc::new(), false);
+    }
     if let Some(h) = case.get("Holder") {
         let c: HolderCase = serde_json::from_value(h.clone()).expect("replay case");
         return check_holder(&c, &mut Acc::new(), false);
     }
     let c: GraphCase = serde_json::from_value(case.clone()).expect("replay case");
     check_graph(&c, &mut Acc::new(), false)
+}
+
+// ------------------------------------------------------------------------------------------------
+// nodes that ARE evolved records: label, then a version-1 record { extra: u8 (chunk 0), edges (chunk 1) }; every level
+// of the graph is a chunk inside a chunk (a region inside a region for the reader)
+
+fn evo_meta() -> desert::adt::AdtMetadata {
+    desert::adt::AdtMetadata::new(vec![desert::Evolution::InitialVersion, desert::Evolution::FieldAdded { name: "edges".into() }])
+}
+
+struct EvoNode(Rc<GNode>);
+struct EvoEdges(Rc<GNode>);
+impl desert::BinarySerializer for EvoNode {
+    fn serialize<O: BinaryOutput>(&self, ctx: &mut SerializationContext<O>) -> desert::Result<()> {
+        if ctx.store_ref_or_object(&*self.0)? {
+            ctx.write_u32(self.0.head.label);
+            let meta = evo_meta();
+            let mut ser = desert::adt::AdtSerializer::new(&meta, ctx);
+            ser.write_field("extra", &(self.0.head.label as u8))?;
+            ser.write_field("edges", &EvoEdges(self.0.clone()))?;
+            ser.finish()?;
+        }
+        Ok(())
+    }
+}
+impl desert::BinarySerializer for EvoEdges {
+    fn serialize<O: BinaryOutput>(&self, ctx: &mut SerializationContext<O>) -> desert::Result<()> {
+        let edges = self.0.edges.borrow();
+        ctx.write_var_u32(edges.len() as u32);
+        for child in edges.iter() {
+            EvoNode(child.clone()).serialize(ctx)?;
+        }
+        Ok(())
+    }
+}
+struct EvoNodeR(Rc<GNode>);
+struct EvoEdgesR(Vec<Rc<GNode>>);
+impl desert::BinaryDeserializer for EvoNodeR {
+    fn deserialize(ctx: &mut DeserializationContext<'_>) -> desert::Result<Self> {
+        match ctx.try_read_ref()? {
+            Some(any) => {
+                let g = any.downcast_ref::<GNode>().ok_or_else(|| desert::Error::DeserializationFailure("reference to a foreign object".into()))?;
+                Ok(EvoNodeR(g.me.upgrade().ok_or_else(|| desert::Error::DeserializationFailure("dead node".into()))?))
+            }
+            None => {
+                let label = ctx.read_u32()?;
+                let node = Rc::new_cyclic(|w| GNode { head: Head { label }, me: w.clone(), edges: RefCell::new(vec![]) });
+                DECODED.with(|d| d.borrow_mut().push(node.clone()));
+                ctx.state_mut().store_ref(&*node);
+                let stored = ctx.read_u8()?;
+                let meta = evo_meta();
+                let mut de = if stored == 0 { desert::adt::AdtDeserializer::new_v0(&meta, ctx)? } else { desert::adt::AdtDeserializer::new(&meta, ctx, stored)? };
+                let extra: u8 = de.read_field("extra", None)?;
+                if extra != label as u8 {
+                    return Err(desert::Error::DeserializationFailure("sibling field of the edge list changed".into()));
+                }
+                let edges: EvoEdgesR = de.read_field("edges", None)?;
+                *node.edges.borrow_mut() = edges.0;
+                Ok(EvoNodeR(node))
+            }
+        }
+    }
+}
+impl desert::BinaryDeserializer for EvoEdgesR {
+    fn deserialize(ctx: &mut DeserializationContext<'_>) -> desert::Result<Self> {
+        let n = ctx.read_var_u32()?;
+        let mut out = Vec::new();
+        for _ in 0..n {
+            out.push(<EvoNodeR as desert::BinaryDeserializer>::deserialize(ctx)?.0);
+        }
+        Ok(EvoEdgesR(out))
+    }
+}
+
+fn evo_model(g: &Graph) -> Vec<u8> {
+    fn slot(n: usize, g: &Graph, ids: &mut Vec<Option<u32>>, next: &mut u32) -> Vec<u8> {
+        let mut out = Vec::new();
+        match ids[n] {
+            Some(id) => var_u32(id, &mut out),
+            None => {
+                *next += 1;
+                ids[n] = Some(*next);
+                out.push(0);
+                out.extend_from_slice(&g.labels[n].to_be_bytes());
+                let mut chunk1 = Vec::new();
+                var_u32(g.edges[n].len() as u32, &mut chunk1);
+                for t in &g.edges[n] {
+                    chunk1.extend(slot(*t, g, ids, next));
+                }
+                out.push(1);
+                vmodel::refcodec::var_i32(1, &mut out);
+                vmodel::refcodec::var_i32(chunk1.len() as i32, &mut out);
+                out.push(g.labels[n] as u8);
+                out.extend(chunk1);
+            }
+        }
+        out
+    }
+    slot(0, g, &mut vec![None; g.labels.len()], &mut 0)
+}
+
+/// graphs whose nodes are evolved records (bytes against the model, shape after decoding)
+pub fn check_evo_graph(g: &Graph, acc: &mut Acc, record: bool) -> Verdict {
+    if g.labels.is_empty() || g.edges.len() != g.labels.len() || g.edges.iter().flatten().any(|t| *t >= g.labels.len()) {
+        return Verdict::Skip;
+    }
+    if record {
+        acc.case("nodes that are evolved records (a chunk inside a chunk per level)", hash_json(&(g, "evo")), g.labels.len() >= 2);
+    }
+    let want = evo_model(g);
+    let nodes = build(g);
+    let enc = guarded(|| {
+        let mut ctx = SerializationContext::new(Vec::new());
+        desert::BinarySerializer::serialize(&EvoNode(nodes[0].clone()), &mut ctx).map(|_| ctx.into_output())
+    });
+    let res = (|| {
+        let bytes = match enc {
+            Ok(Ok(b)) => b,
+            Ok(Err(e)) => return Verdict::Fail(format!("encoding a graph of {} evolved-record nodes failed: {e:?}", g.labels.len())),
+            Err(p) => return Verdict::Fail(format!("encoding a graph of evolved-record nodes panicked: {p}")),
+        };
+        if bytes != want {
+            return Verdict::Fail(format!("a graph of {} evolved-record nodes encodes as {} bytes; the model gives {} (first difference at {:?})", g.labels.len(), bytes.len(), want.len(), bytes.iter().zip(&want).position(|(a, b)| a != b)));
+        }
+        DECODED.with(|d| d.borrow_mut().clear());
+        let dec = guarded(|| desert::deserialize::<EvoNodeR>(&bytes));
+        let all = DECODED.with(|d| std::mem::take(&mut *d.borrow_mut()));
+        let v = match dec {
+            Ok(Ok(root)) => match isomorphic(g, &root.0) {
+                Ok(()) => Verdict::Pass,
+                Err(e) => Verdict::Fail(format!("decoded graph of evolved-record nodes is not isomorphic: {e}")),
+            },
+            Ok(Err(e)) => Verdict::Fail(format!("decoding a graph of {} evolved-record nodes (first-encounter depth up to {}) failed: {e:?}", g.labels.len(), g.labels.len())),
+            Err(p) => Verdict::Fail(format!("decoding a graph of evolved-record nodes panicked: {p}")),
+        };
+        unlink(&all);
+        v
+    })();
+    unlink(&nodes);
+    res
 }
 
 // ------------------------------------------------------------------------------------------------
